@@ -14,8 +14,8 @@ import (
 // C13 — partial unmarshaling reports exactly the fields present.
 
 var c13T = TypeD{Name: "t",
-	Attrs: []AttrD{{"s", Kind{j.AttrTypeString, false}}, {"n", Kind{j.AttrTypeInt, true}}, {"b", Kind{j.AttrTypeBool, false}}},
-	Rels:  []RelD{{"one", true, "u", ""}, {"many", false, "u", ""}, {"two", true, "u", ""}}}
+	Attrs: []AttrD{{"s", Kind{j.AttrTypeString, false}}, {"n", Kind{j.AttrTypeInt, true}}, {"prénom", Kind{j.AttrTypeBool, false}}},
+	Rels:  []RelD{{"one", true, "u", ""}, {"équipe_", false, "u", ""}, {"two", true, "u", ""}}}
 
 func c13Body(x *mc.Exec) { c13Run(x, false) }
 
@@ -29,11 +29,11 @@ func c13Run(x *mc.Exec, order bool) {
 	attrForms := map[string][]string{
 		"s": {"", `"v"`, "null", "5"},
 		"n": {"", "7", "null", `"x"`},
-		"b": {"", "true", "null", `"true"`},
+		"prénom": {"", "true", "null", `"true"`},
 	}
 	var aparts []string
 	attrsIn := []string{}
-	for _, n := range []string{"s", "n", "b"} {
+	for _, n := range []string{"s", "n", "prénom"} {
 		nf := 4
 		if order {
 			nf = 2
@@ -58,7 +58,7 @@ func c13Run(x *mc.Exec, order bool) {
 	}
 	var rparts []string
 	relsWithData := []string{}
-	for _, n := range []string{"one", "many"} {
+	for _, n := range []string{"one", "équipe_"} {
 		f := relForms[x.Choose(len(relForms), "rel "+n)]
 		if f.js != "" {
 			rparts = append(rparts, fmt.Sprintf("%q:%s", n, f.js))
